@@ -44,6 +44,8 @@ class Oracle:
     def check_outcome(self, op: dict[str, Any], pred: dict[str, Any], out: dict[str, Any]) -> None:
         st = op.get("st", {"t": op["k"]})
         t = st["t"]
+        if t == "raw_fail":
+            t = "raw:" + "_".join(str(op.get("sql", "")).upper().split()[:2])
         ql = qual_level(st)
         if pred["ok"] and not out.get("ok"):
             cls = out.get("exc")
@@ -58,10 +60,23 @@ class Oracle:
                 ql = ("second-table/" if str(pred.get("why", "")).startswith("second-table") else "") + ql
                 self.flag("should-fail", f"should-fail/{t}/{ql}/{e0}", {"op": op_brief(op), "expected_errors": pred["errs"], "why": pred.get("why"), "outcome": out})
                 return
-            if out.get("exc") != PG_ERR:
-                self.flag("raw-exception", f"raw-exception/{t}/{out.get('exc')}", {"op": op_brief(op), "outcome": out, "expected_errors": pred["errs"]})
+            if pred.get("anyclass"):
+                return
+            want_cls = pred.get("cls", PG_ERR)
+            if out.get("exc") != want_cls:
+                clause = "raw-exception" if not str(out.get("mod", "")).startswith("snowflake") else "error-class"
+                self.flag(clause, f"{clause}/{t}/{out.get('exc')}", {"op": op_brief(op), "outcome": out, "expected_errors": pred["errs"], "expected_class": want_cls})
+                return
+            if op["k"] == "exec" and want_cls == PG_ERR and out.get("cursor_sqlstate") != out.get("sqlstate"):
+                self.flag("sqlstate-attr", f"sqlstate-attr/{t}", {"op": op_brief(op), "outcome": out})
                 return
             pair = [out.get("errno"), out.get("sqlstate")]
+            want_msg = (op.get("st") or {}).get("msg")
+            if want_msg and want_msg not in str(out.get("msg")):
+                self.flag("error-message", f"error-message/{t}", {"op": op_brief(op), "outcome": out, "expected_message": want_msg})
+                return
+            if pred.get("anycode"):
+                return
             if pair not in pred["errs"]:
                 ql = ("second-table/" if str(pred.get("why", "")).startswith("second-table") else "") + ql
                 self.flag("error-code", f"error-code/{t}/{ql}/want={pred['errs'][0][0]}/got={pair[0]}", {"op": op_brief(op), "outcome": out, "expected_errors": pred["errs"], "why": pred.get("why")})
@@ -71,9 +86,18 @@ class Oracle:
             if out.get("database") != pred.get("database") or out.get("schema") != pred.get("schema"):
                 self.flag("connect-names", "connect-names", {"op": op_brief(op), "expected": pred, "outcome": out})
             return
+        if op["k"] == "exec" and out.get("sqlstate") is not None:
+            self.flag("sqlstate-attr", f"sqlstate-attr/not-reset/{t}", {"op": op_brief(op), "outcome": out})
+            return
         if pred.get("rows") is not None:
             got = out.get("rows")
             exp = pred["rows"]
+            if got and isinstance(got[0], dict) and got[0].get("t") == "dictrow":
+                keys = [[kv[0] for kv in r["v"]] for r in got]
+                got = [[kv[1] for kv in r["v"]] for r in got]
+                if pred.get("cols") is not None and any(k != pred["cols"] for k in keys):
+                    self.flag("column-names", f"column-names/{t}", {"op": op_brief(op), "expected": pred["cols"], "observed": keys[0]})
+                    return
             if pred.get("ctx"):
                 d, s = exp[0]
                 g = (got or [[None, None]])[0]
@@ -148,6 +172,33 @@ class Oracle:
                 return
 
 
+def _check_variables(self: Oracle, op: dict[str, Any], model: Model, world: World) -> None:
+    """Every live session still sees exactly its own variables (read through the public API, quietly)."""
+    t = op.get("st", {"t": op["k"]})["t"]
+    names = sorted({n for s in model.sessions.values() for n in s["vars"]})
+    for sid in sorted(world.conns):
+        conn = world.conns[sid]
+        if conn.is_closed() or model.sessions[sid].get("closed"):
+            continue
+        for n in names:
+            with world.sim.quiet():
+                try:
+                    cur = conn.cursor()
+                    cur.execute(f"SELECT ${n}")
+                    got: Any = cur.fetchall()[0][0]
+                except BaseException as e:  # noqa: BLE001
+                    got = ("!", type(e).__name__)
+            want = model.sessions[sid]["vars"].get(n, ("!", "ProgrammingError"))
+            if got != want and not (isinstance(want, tuple) and isinstance(got, tuple) and got[0] == "!"):
+                whose = "own" if sid == op["s"] else "other"
+                self.flag("variables", f"variables/{t}/{whose}", {"op": op_brief(op), "session": sid, "variable": n, "expected": want, "observed": got},
+                          prop="C15" if not op.get("st", {}).get("t") == "raw_fail" else None)
+                return
+
+
+Oracle.check_variables = _check_variables  # type: ignore[attr-defined]
+
+
 def op_brief(op: dict[str, Any]) -> dict[str, Any]:
     return {k: v for k, v in op.items() if k in ("s", "k", "sql", "database", "schema", "cur", "params")}
 
@@ -159,11 +210,19 @@ def predict(model: Model, op: dict[str, Any]) -> dict[str, Any]:
         if op["s"] not in model.sessions:
             return {"ok": False, "errs": [], "why": "no session"}
         return model.apply(op["s"], op["st"])
+    if op["k"] in ("commit", "rollback"):
+        r = model.apply(op["s"], {"t": op["k"]})
+        if r["ok"]:
+            r = {"ok": True, "rows": None, "rowcount": None}
+        return r
+    if op["k"] == "close":
+        model.close(op["s"])
+        return {"ok": True, "rows": None, "rowcount": None}
     raise core.HarnessError(f"sqlworld cannot predict op kind {op['k']}")
 
 
 def run_serial_case(case: dict[str, Any], oracle: Oracle, *, snapshot_every: bool = True, sessions_every: bool = True,
-                    focus: Any = None) -> dict[str, Any]:
+                    focus: Any = None, min_focus: int = 1, fail_profile: bool = False, check_vars: bool = False) -> dict[str, Any]:
     """Execute case['ops'] in list order; after every op run the oracles. Returns the result record."""
     sim = core.begin()
     cfg = case.get("config", {})
@@ -193,11 +252,22 @@ def run_serial_case(case: dict[str, Any], oracle: Oracle, *, snapshot_every: boo
                 probes[f"predicted_{e0}"] = probes.get(f"predicted_{e0}", 0) + 1
             if focus is not None and focus(op, pred):
                 focus_hits += 1
+            if not pred["ok"] and op["s"] in model.sessions:
+                if model.sessions[op["s"]].get("txn") is not None:
+                    probes["fail_in_txn"] = probes.get("fail_in_txn", 0) + 1
+                if model.sessions[op["s"]].get("closed"):
+                    probes["use_after_close"] = probes.get("use_after_close", 0) + 1
+            if pred["ok"] and pred.get("rowcount") == 0 and t in ("update", "delete", "insert_select"):
+                probes["zero_row_dml"] = probes.get("zero_row_dml", 0) + 1
+            if op.get("dict") and t in ("insert", "insert_select", "update", "delete"):
+                probes["dict_cursor_dml"] = probes.get("dict_cursor_dml", 0) + 1
             oracle.check_outcome(op, pred, out)
             if oracle.violation is None and snapshot_every:
                 oracle.check_snapshot(op, model, world.observe(with_sessions=False))
             if oracle.violation is None and sessions_every:
                 oracle.check_sessions(op, model, world)
+            if oracle.violation is None and (check_vars or (fail_profile and (not pred["ok"] or t in ("set_var", "unset_var") or op is case["ops"][-1]))):
+                oracle.check_variables(op, model, world)
             if oracle.violation is not None:
                 oracle.violation["detail"]["op_index"] = n_done - 1
                 break
@@ -212,7 +282,7 @@ def run_serial_case(case: dict[str, Any], oracle: Oracle, *, snapshot_every: boo
             "strategy": "serial",
             "fingerprint": fp(kinds),
             "interleaving": fp([o["s"] for o in case["ops"]]),
-            "nontrivial": focus_hits > 0 if focus is not None else n_done > 2,
+            "nontrivial": focus_hits >= min_focus if focus is not None else n_done > 2,
             "state_hash": final,
         }
     finally:
